@@ -20,6 +20,7 @@ Oracle (independent of the DUT's shift registers / bit counter):
 from amaranth import *
 from ..harness import Harness
 from ..engine import Query
+from ..lib.periph import VS, in_vsync
 
 PROP = "C50"
 ENCODED = ["luna/gateware/interface/spi.py: SPIDeviceInterface.spi_edge_detectors/elaborate "
@@ -34,14 +35,16 @@ ASSUMPTIONS = [
     "the previous word's final sample edge (following words), per the class docstring",
     "word_complete must follow the word's last sample edge within 3 cycles",
 ]
-BOUNDS = "BMC from reset; word sizes 2..9 (quick: 3,4,5,8) x CPOL x CPHA x bit order (+ cs_idles_high for one size); " \
-         "depth reaches 3 (quick: >=2) full words per transaction plus aborted partial words"
-OUTSIDE = "word sizes above 9 (16 in a restricted thorough layer only); SDO of the first bit in transactions whose " \
+BOUNDS = "BMC from reset. Free layer (sck/sdi/cs/word_out free per cycle): word sizes 2-5 x all 8 mode/bit-order " \
+         "combinations and 6,7 x 2 modes to two full words; 8 (all modes), 9 to one word + the start of the next. " \
+         "Restricted layer (SCK toggling every cycle, cs/sdi/word_out free): sizes 3,5,6,7,8,9 x 8 modes and 16 to three " \
+         "full words. Quick tier: a pairwise subset (sizes 3,4,5,8; every mode/bit order used at least once)"
+OUTSIDE = "word sizes above 9 (16 in the restricted layer only); more than two words with irregular SCK; SDO of the first bit in transactions whose " \
           "first edge is a sample edge (CPHA=0 style first bit); metastability/synchronisation of SCK"
 
 
 class SpiWordHarness(Harness):
-    domains = ("sync",)
+    domains = (VS,)
 
     def __init__(self, ws, cpol=0, cpha=0, msb_first=True, cs_idles_high=False):
         super().__init__()
@@ -66,12 +69,14 @@ class SpiWordHarness(Harness):
 
     def elaborate(self, platform):
         m = Module()
-        m.submodules.dut = dut = self.dut
+        dut = self.dut
+        m.submodules.dut = in_vsync(dut)
+        sync = m.d[VS]
         ws = self.ws
         sclk = Signal(name="g_sclk")
         m.d.comb += sclk.eq(self.sck ^ self.cpol)
         prev = Signal(name="g_prev")
-        m.d.sync += prev.eq(sclk)
+        sync += prev.eq(sclk)
         lead = ~prev & sclk
         trail = prev & ~sclk
         samp_e, out_e = (trail, lead) if self.cpha else (lead, trail)
@@ -107,20 +112,20 @@ class SpiWordHarness(Harness):
             with m.If(samp):
                 for i in range(ws):
                     with m.If(cnt == i):
-                        m.d.sync += rx[pos(i)].eq(self.sdi)
-                m.d.sync += cnt.eq(Mux(done, 0, cnt + 1))
+                        sync += rx[pos(i)].eq(self.sdi)
+                sync += cnt.eq(Mux(done, 0, cnt + 1))
                 with m.If(done):
-                    m.d.sync += txw.eq(self.word_out)
+                    sync += txw.eq(self.word_out)
                     with m.If(words != 3):
-                        m.d.sync += words.eq(words + 1)
+                        sync += words.eq(words + 1)
             with m.If(samp | outp):
-                m.d.sync += any_edge.eq(1)
+                sync += any_edge.eq(1)
                 with m.If(~any_edge):
-                    m.d.sync += lead_ok.eq(outp)
+                    sync += lead_ok.eq(outp)
         with m.Else():
-            m.d.sync += [cnt.eq(0), txw.eq(self.word_out), words.eq(0), any_edge.eq(0), lead_ok.eq(0)]
+            sync += [cnt.eq(0), txw.eq(self.word_out), words.eq(0), any_edge.eq(0), lead_ok.eq(0)]
             with m.If(cnt != 0):
-                m.d.sync += aborted.eq(1)
+                sync += aborted.eq(1)
 
         # --- reporting monitor
         m.d.comb += [
@@ -134,11 +139,11 @@ class SpiWordHarness(Harness):
         exp_ab = Signal(name="g_exp_ab")
         m.d.comb += self.c_abort.eq(dut.word_complete & pending & exp_ab)
         with m.If(dut.word_complete):
-            m.d.sync += pending.eq(0)
+            sync += pending.eq(0)
         with m.If(pending & (age != 3)):
-            m.d.sync += age.eq(age + 1)
+            sync += age.eq(age + 1)
         with m.If(done):
-            m.d.sync += [pending.eq(1), age.eq(0), exp.eq(now_word), exp_idx.eq(words), exp_ab.eq(aborted)]
+            sync += [pending.eq(1), age.eq(0), exp.eq(now_word), exp_idx.eq(words), exp_ab.eq(aborted)]
 
         # --- transmit monitor: SDO at every sample edge
         first_is_out = Signal(name="g_first_is_out")
@@ -170,44 +175,58 @@ class SpiWordHarness(Harness):
         return dict(sck=st["sck"], cs=act, sdi=rng.getrandbits(1), word_out=rng.getrandbits(self.ws))
 
 
-def _cfgs(tier):
-    sizes = (3, 4, 5, 8) if tier == "quick" else (2, 3, 4, 5, 6, 7, 8, 9)
-    out = []
-    for ws in sizes:
-        for cpol in (0, 1):
-            for cpha in (0, 1):
-                for msb in (True, False):
-                    out.append((ws, cpol, cpha, msb, False))
-    out.append((5, 0, 1, True, True))
-    out.append((4, 1, 0, True, True))
-    return out
+MODES = [(cpol, cpha, msb) for cpol in (0, 1) for cpha in (0, 1) for msb in (True, False)]
+
+
+def _tag(ws, cpol, cpha, msb, csh=False):
+    return f"w{ws}_m{cpol}{cpha}_{'msb' if msb else 'lsb'}{'_csn' if csh else ''}"
+
+
+def _desc(ws, cpol, cpha, msb, csh=False):
+    return f"word_size={ws} CPOL={cpol} CPHA={cpha} {'MSB' if msb else 'LSB'}-first{' cs active low' if csh else ''}"
 
 
 def queries(tier):
     qs = []
-    for ws, cpol, cpha, msb, csh in _cfgs(tier):
-        tag = f"w{ws}_m{cpol}{cpha}_{'msb' if msb else 'lsb'}{'_csn' if csh else ''}"
-        f = (lambda ws=ws, cpol=cpol, cpha=cpha, msb=msb, csh=csh: SpiWordHarness(ws, cpol, cpha, msb, csh))
-        words = 2 if tier == "quick" else 3
-        K = 2 * ws * words + 6
-        covers = ["word", "second_word", "tx_checked", "tx_second_word_one"]
-        if words >= 3:
-            covers.append("third_word")
-        qs.append(Query(f"bmc_{tag}", f, K, covers=covers, split=False, timeout=600,
-                        desc=f"word_size={ws} CPOL={cpol} CPHA={cpha} {'MSB' if msb else 'LSB'}-first"
-                             f"{' cs active low' if csh else ''}: sck/sdi/cs/word_out free every cycle, "
-                             f"{words} full words reachable"))
-    # aborted partial word followed by a full word, one configuration per tier size class
-    for ws in ((3, 4) if tier == "quick" else (3, 4, 5, 8)):
-        f = (lambda ws=ws: SpiWordHarness(ws, 0, 0, True))
-        qs.append(Query(f"bmc_abort_w{ws}", f, 2 * ws + 12, covers=["word_after_abort"], asserts=[], split=False,
+    quick = tier == "quick"
+    mk = lambda *a: (lambda: SpiWordHarness(*a))
+    # ---- layer 1: everything free every cycle, two full words reachable (K = 4*ws + 6)
+    if quick:
+        free = [(3, 0, 0, True), (3, 1, 1, False), (4, 0, 1, True),
+                (5, 0, 0, True), (5, 0, 1, False), (5, 0, 1, True, True)]
+    else:
+        free = [(ws, *md) for ws in (2, 3, 4, 5) for md in MODES] + \
+               [(6, 0, 1, True), (6, 1, 0, False), (7, 0, 0, True), (7, 1, 1, False),
+                (5, 0, 1, True, True), (4, 1, 0, True, True)]
+    for cfg in free:
+        ws = cfg[0]
+        qs.append(Query(f"bmc_{_tag(*cfg)}", mk(*cfg), 4 * ws + 6, split=False, timeout=900,
+                        covers=["word", "second_word", "tx_checked", "tx_second_word_one"],
+                        desc=_desc(*cfg) + ": sck/sdi/cs/word_out free every cycle, two full words reachable"))
+    # ---- layer 2: larger words, free every cycle, one full word and the start of the next (K = 2*ws + 10)
+    big = [(8, 1, 1, True)] if quick else \
+          [(8, *md) for md in MODES] + [(9, 0, 1, True), (9, 1, 0, False)]
+    for cfg in big:
+        ws = cfg[0]
+        qs.append(Query(f"bmc_{_tag(*cfg)}", mk(*cfg), 2 * ws + 10, split=False, timeout=900,
+                        covers=["word", "tx_checked"],
+                        desc=_desc(*cfg) + ": sck/sdi/cs/word_out free every cycle, one word and the start of the next"))
+    # ---- layer 3 (restricted): SCK toggles in every cycle; cs/sdi/word_out free; three full words
+    if quick:
+        tog = [(8, 1, 1, True), (8, 0, 0, False), (5, 1, 0, True), (3, 1, 0, False), (4, 1, 0, False)]
+    else:
+        tog = [(ws, *md) for ws in (3, 5, 6, 7, 8, 9) for md in MODES] + [(16, 1, 0, True), (16, 0, 1, False)]
+    for cfg in tog:
+        ws, cpol = cfg[0], cfg[1]
+        qs.append(Query(f"bmc_toggle_{_tag(*cfg)}", mk(*cfg), 6 * ws + 8, split=False, timeout=900,
+                        layer={"sck": (lambda t, cpol=cpol: cpol ^ (t & 1))},
+                        covers=["word", "second_word", "third_word", "tx_checked", "tx_second_word_one"],
+                        desc=_desc(*cfg) + ": layer: SCK toggles in every cycle; cs/sdi/word_out free; three words"))
+    # ---- witnesses: aborted partial word followed by a full word
+    for ws in ((3, 4) if quick else (3, 4, 5, 8)):
+        qs.append(Query(f"cover_abort_w{ws}", mk(ws, 0, 0, True), 2 * ws + 12, covers=["word_after_abort"], asserts=[],
+                        split=False,
                         desc="witness: a word is reported after an earlier partial word was aborted by CS"))
-    f = lambda: SpiWordHarness(5, 0, 1, True)
-    qs.append(Query("cosim_w5", f, 0, kind="cosim", cosim_cycles=300 if tier == "quick" else 2000))
-    f = lambda: SpiWordHarness(8, 1, 0, False)
-    qs.append(Query("cosim_w8", f, 0, kind="cosim", cosim_cycles=300 if tier == "quick" else 2000))
-    if tier == "thorough":
-        f = lambda: SpiWordHarness(16, 1, 0, True)
-        qs.append(Query("bmc_w16_m10_msb", f, 2 * 16 * 2 + 6, covers=["second_word"], split=False, timeout=600,
-                        desc="word_size=16 (the repo test's configuration), two words"))
+    qs.append(Query("cosim_w5", mk(5, 0, 1, True), 0, kind="cosim", cosim_cycles=300 if quick else 2000))
+    qs.append(Query("cosim_w8", mk(8, 1, 0, False), 0, kind="cosim", cosim_cycles=300 if quick else 2000))
     return qs
